@@ -61,7 +61,7 @@ CLAIMED["C06"] = dict(
 CLAIMED["C05"] = dict(
     text="The declaration actions of the listener machine (ExitExpressionvar / ExitArrayvar) state the property: declared kind, element (r, c) = c-th "
          "entry of the r-th written row, declared dtype and shape, ragged rows and contradicting shapes refused, A[k] row-major. TLC enumerates every "
-         "array with 1..3 rows of 1..3 entries (all ragged combinations), 5 bare-parameter patterns, 5 shape forms, scalars of every type and readers "
+         "array with 1..3 rows of 1..3 entries (all ragged combinations), 5 bare-parameter patterns, 5 shape forms, arrays made of two distinct template parameters only after earlier uses of those parameters, scalars of every type and readers "
          "A[k]; each script is loaded by the real code and program.variables (kind, dtype, shape, every element) and the read arguments are compared.",
     note="Trusted: TLC, renderer (self-checked). Out-of-range/negative indices and lossy conversions (int x = 2.7) are outside the property.",
     technique="TLC-enumerated declarations on the listener-machine model replayed into the real loader",
@@ -82,8 +82,9 @@ CLAIMED["C12"] = dict(
          "of up to K loads over 19 scripts (valid, template, tdm, failing at each stage incl. inside loops/includes/metadata, scripts whose options "
          "mention names, a nested include), with the included files edited or not between two loads (file-system epochs), and checks Independent: every outcome equals the outcome from a pristine process; a teeth run with the clearing switched "
          "off must find the counterexample. Each history is replayed in a freshly forked interpreter with real files; every outcome is compared with "
-         "the specification's and the returned programs must share no mutable object.",
-    note="Trusted: TLC, renderer. Histories of length 2 (quick) / 3 (thorough) over the menu.",
+         "the specification's and the returned programs must share no mutable object. Random walks of the same model give histories of 5 (thorough 7) loads. "
+         "In every OTHER check the harness replays a hostile load history (successful and failing loads at every stage, using the menus' names with other types, tdm p-arrays and parameters) in front of every fourth load, the expected outcome staying the specification's.",
+    note="Trusted: TLC, renderer. Histories of length 2 (quick) / 3 (thorough) exhaustively over the menu, 5 / 7 by simulation.",
     technique="TLC exploration of load histories on the listener-machine model with persistent tables + replay of each history in a fresh process",
     design="7/C12")
 
@@ -114,14 +115,14 @@ CLAIMED["C15"] = dict(
          "block and leaves the references bare. TLC checks on every tdm script in the bound: arguments referring to p-arrays are delivered by name "
          "and the data stay in the variables, other variables by value, by-value delivery outside tdm, p-names never among the parameters, template "
          "iff {} parameters, and the round trip preserves operations and every variable. The real loader, parameters/is_template, variables and two "
-         "dumps/loads generations are compared with the specification.",
+         "dumps/loads generations are compared with the specification; for templates an instance is made, its arrays are changed in place, and the template and a later instance must still hold the declared data.",
     note="Trusted: TLC, renderer. Menu of 13 items, 2 tdm metadata variants + non-tdm control.",
     technique="TLC invariants on the listener-machine/serialiser specification for tdm scripts + replay into real load/dumps",
     design="7/C15")
 
 CLAIMED["C09"] = dict(
     text="TLC enumerates abstract programs directly (every supported value kind incl. opaque atoms -0.0, 5e-324, 1e+-300, 2^62, negative real/imaginary "
-         "parts, 18 arrays up to 3x3, lists, SymPy terms; positional, keyword and option position) and checks Load(Serialize(p)) = p on the "
+         "parts, 18 arrays up to 3x3, lists, SymPy terms; positional, keyword and option position; tdm programs with declared p-arrays of one to three rows passed by name next to arrays passed by value) and checks Load(Serialize(p)) = p on the "
          "specification. The harness builds each program through the real API twice (Python scalars and 64-bit NumPy scalars), calls dumps, requires "
          "loads to accept the text, and compares the reloaded program with p structurally and exactly (arrays: shape, dtype kind, every element).",
     note="Trusted: TLC. Programs are assembled the way the repository's tests do. Keyword/option names that are Blackbird keywords are outside the property.",
@@ -157,15 +158,15 @@ CLAIMED["C17"] = dict(
          "solutions must agree). TLC checks for 5 hand-written templates with 2 rational environments, all 131 five-operation templates over {R|0, R|1, BS|[0,1]} with at "
          "least two two-mode gates, and EVERY reordering of the instance that keeps per-mode order "
          "that Match returns the environment, and that every single structural edit is rejected. The harness replays each case on the real "
-         "match_template (plus random decimal environments, version/target edits) and compares results / TemplateError.",
+         "match_template (plus random decimal environments, version/target edits; the instance built through the API, by calling the template, and LOADED from its serialised script after a hostile history of failing loads) and compares results / TemplateError.",
     note="Trusted: TLC, SymPy's solve. Decimal environments are harness-chosen; the spec statement is generic in the values.",
     technique="TLC check of Match o Permute o Instantiate = id on the matching specification + replay into the real matcher",
     design="7/C17")
 
 CLAIMED["C13"] = dict(
     text="BBObjects models programs as objects over a heap of mutable cells (operation dicts, argument lists, keyword dicts, arrays, variable and option dicts, feed-forward transforms). "
-         "TLC explores every history of API calls (dumps, attribute reads, to_DiGraph, match_template, template calls creating instances - each handed the caller's own array object -, nine kinds "
-         "of mutation of an instance incl. the register list of a feed-forward argument and an element of an array argument) up to a depth and checks the action properties Pure (read-only actions leave the content of every object "
+         "TLC explores every history of API calls (dumps, attribute reads, to_DiGraph, match_template, template calls creating instances - each handed the caller's own array object -, eleven kinds "
+         "of mutation of an instance incl. the register list of a feed-forward argument, an element of an array argument, an element of an array variable with and without parameters, a variable removed, a list element inside an option replaced) up to a depth and checks the action properties Pure (read-only actions leave the content of every object "
          "unchanged) and OnlyTargetChanges, and the invariant Independent (no cell reachable from two objects); two teeth runs (to_DiGraph filling "
          "missing args; shallow instances) must yield counterexamples. Every history is replayed on real objects with a deep digest (structure + "
          "dumps text) of every live object after every action, and final contents are compared with the specification's heap.",
